@@ -228,6 +228,12 @@ def accept_oracle(group, res, kind):
                 fails.append(Failure(group, "body", "body is not the bytes before the boundary", [0]))
     for i in range(1, len(group.members)):
         m = group.members[i]
+        if m.role == "cut":
+            r = ParseResult(res[group.tag(i)])
+            flds = ["m", "t", "u", "h", "b"] if kind == "req" else ["c", "p", "h", "b"]
+            if r.verdict != base.verdict or (r.verdict == "complete" and any(r.fields.get(f) != base.fields.get(f) for f in flds)):
+                fails.append(Failure(group, "accept-set-delivery", "the same bytes are answered with %s when delivered in pieces, %s in one piece" % (r.verdict, base.verdict), [0, i]))
+            continue
         if m.role != "prefix":
             continue
         if base.verdict != "complete":
@@ -269,6 +275,9 @@ class C03:
                 n_end = len(s)
                 for p in prefix_points(rng, s, n_end, 8):
                     g.add("prefix", gen.req_op(tree, ov, cfg, [s[:p]]), {"k": p})
+            if rng.chance(1, 4):
+                for ds in gen.schedules(rng, s, n_random=1)[:5]:
+                    g.add("cut", gen.req_op(tree, ov, cfg, ds))
             groups.append(g)
         # all short strings over a structural alphabet as request lines
         alpha = [b"G", b" ", b"/", b"HTTP/1.1", b"\r", b"\n", b"\xc3", b":", b"*"]
@@ -310,6 +319,9 @@ class C04:
             if info["line_ok"] and rng.chance(1, 2):
                 for p in prefix_points(rng, s, len(s), 8):
                     g.add("prefix", gen.resp_op(tree, ov, hl, [s[:p]]), {"k": p})
+            if rng.chance(1, 4):
+                for ds in gen.schedules(rng, s, n_random=1)[:5]:
+                    g.add("cut", gen.resp_op(tree, ov, hl, ds))
             groups.append(g)
         alpha = [b"HTTP/1.1", b" ", b"2", b"0", b"999", b"1000", b"\r", b"\n", b"\xc3", b"+", b"x"]
         for j, w in enumerate(small_strings(alpha, n_for(tier, 4, 5))):
@@ -410,7 +422,9 @@ class C05:
             g = Group("k%d" % k, "chunked-valid" if cinfo["ok"] else "chunked-mutated", meta)
             g.add("whole", gen.resp_op(tree, ov, None, [s]))
             if rng.chance(1, 3):
-                for ds in gen.schedules(rng, s, n_random=1)[:4]:
+                sch = gen.schedules(rng, s, n_random=1)
+                rng.shuffle(sch)
+                for ds in sch[:5]:
                     g.add("cut", gen.resp_op(tree, ov, None, ds))
             groups.append(g)
         alpha = [b"0", b"1", b"a", b"F", b"\r", b"\n", b"\r\n", b";", b"+", b" ", b"x", b":"]
@@ -814,8 +828,11 @@ class C17:
         body = b"abcdefghijklmnopqrstuvwxyz0123456789" * 8
         if pos == "req-cl":
             return gen.req_op(tree, ov, (None, None, None), [b"POST / HTTP/1.1\r\nContent-Length: " + s + b"\r\n\r\n" + body])
-        if pos == "resp-cl":
-            return gen.resp_op(tree, ov, None, [b"HTTP/1.1 200 OK\r\nContent-Length:" + s + b"\r\n\r\n" + body])
+        if pos.startswith("resp-cl"):
+            code = pos[7:] or "200"
+            return gen.resp_op(tree, ov, None, [b"HTTP/1.1 " + code.encode() + b" OK\r\nContent-Length:" + s + b"\r\n\r\n" + body])
+        if pos.startswith("req-cl-"):
+            return gen.req_op(tree, ov, (None, None, None), [pos[7:].encode() + b" / HTTP/1.1\r\nContent-Length: " + s + b"\r\n\r\n" + body])
         if pos == "chunk":
             return gen.resp_op(tree, ov, None, [b"HTTP/1.1 200 OK\r\nTransfer-Encoding: chunked\r\n\r\n" + s + b"\r\n" + body + b"\r\n0\r\n\r\n"])
         if pos == "chunk-ext":
@@ -826,8 +843,23 @@ class C17:
     def generate(rng, tier, tree, ov):
         groups = []
         positions = ["req-cl", "resp-cl", "chunk", "chunk-ext", "status"]
+        more_positions = ["resp-cl100", "resp-cl101", "resp-cl199", "resp-cl204", "resp-cl304", "resp-cl404", "resp-cl0", "resp-cl999",
+                          "req-cl-GET", "req-cl-HEAD", "req-cl-OPTIONS", "req-cl-CONNECT", "req-cl-TRACE"]
         k = 0
+        for w in small_strings(NUM_ALPHA, 2):
+            for pos in more_positions:
+                g = Group("n%d" % k, "numeric-exhaustive", {"pos": pos, "field": w.hex()})
+                g.add("whole", C17.build(pos, w, tree, ov))
+                groups.append(g)
+                k += 1
+        positions = positions + more_positions
         for w in small_strings(NUM_ALPHA, n_for(tier, 3, 4)):
+            for pos in positions[:5]:
+                g = Group("n%d" % k, "numeric-exhaustive", {"pos": pos, "field": w.hex()})
+                g.add("whole", C17.build(pos, w, tree, ov))
+                groups.append(g)
+                k += 1
+        for w in []:
             for pos in positions:
                 g = Group("n%d" % k, "numeric-exhaustive", {"pos": pos, "field": w.hex()})
                 g.add("whole", C17.build(pos, w, tree, ov))
@@ -847,7 +879,7 @@ class C17:
         fails = []
         pos, w = group.meta["pos"], unhex(group.meta["field"])
         r = ParseResult(res[group.tag(0)])
-        if pos in ("req-cl", "resp-cl"):
+        if pos.startswith("req-cl") or pos.startswith("resp-cl"):
             if b"\r" in w or b"\n" in w:
                 return fails        # the field then is not one header value
             field = w.strip(b" \t")
@@ -960,6 +992,19 @@ class C06:
                     add("multibyte-insert", mk(base[:i] + mb + base[i:]))
                     if i < len(base):
                         add("multibyte-replace", mk(base[:i] + mb + base[i + 1:]))
+        # long lines: a multi-byte character straddling every byte offset up to 300 (error texts, excerpts, limits)
+        for p in range(1, n_for(tier, 300, 1100)):
+            for mb in ("\u20ac".encode(), "\U0001F600".encode()):
+                filler = b"a" * (p - 1) + mb + b"a" * 8
+                add("multibyte-long", gen.resp_op(tree, ov, None, [filler + b"\r\n\r\n"]))                       # no protocol delimiter
+                add("multibyte-long", gen.resp_op(tree, ov, None, [b"HTTP/1.0 " + filler + b"\r\n\r\n"]))       # wrong protocol
+                add("multibyte-long", gen.resp_op(tree, ov, None, [b"HTTP/1.1 " + filler + b"\r\n\r\n"]))       # no status-code delimiter
+                add("multibyte-long", gen.resp_op(tree, ov, None, [b"HTTP/1.1 200 " + filler + b"\r\n\r\n"]))   # accepted, long reason
+                add("multibyte-long", gen.req_op(tree, ov, (None, None, None), [filler + b"\r\n\r\n"]))
+                add("multibyte-long", gen.req_op(tree, ov, (p, None, None), [filler + b" / HTTP/1.1\r\n\r\n"]))
+                add("multibyte-long", gen.req_op(tree, ov, (None, None, None), [b"GET /" + filler + b" HTTP/1.1\r\n\r\n"]))
+                add("multibyte-long", gen.req_op(tree, ov, (None, p, None), [b"GET / HTTP/1.1\r\n" + filler + b": v\r\n\r\n"]))
+                add("multibyte-long", gen.resp_op(tree, ov, None, [b"HTTP/1.1 200 OK\r\nTransfer-Encoding: chunked\r\n\r\n" + b"1;" + filler + b"\r\na\r\n0\r\n\r\n"]))
         ct = b"text/plain; charset=utf-8"
         for i in range(len(ct) + 1):
             for mb in MULTIBYTE[:3]:
